@@ -3,6 +3,7 @@ package sim
 import (
 	"context"
 	"errors"
+	"fmt"
 	"sync"
 	"time"
 
@@ -17,6 +18,7 @@ type SimCache struct {
 	pre      map[string]*cacheEnt // frozen copy, read-only during a run
 	PanicOn  string               // url whose Get panics ("" = none)
 	PanicV   any
+	WrapMiss bool // misses are reported as a wrapped ErrCacheMiss
 	PanicSet bool // ... the panic is raised by Set instead of Get
 	// Latency is the (fake) duration of every cache operation: a durable
 	// cache does I/O. Operations record their begin and end instants.
@@ -138,6 +140,10 @@ func (c *SimCache) Get(ctx context.Context, url string) (*corecrl.Bundle, error)
 		return nil, errCacheFault
 	case plan == 2 || e.bundle == nil:
 		op.Outcome = "miss"
+		if c.WrapMiss {
+			// a cache implementation may wrap the sentinel; errors.Is still says "miss"
+			return nil, fmt.Errorf("sim cache: key %q: %w", url, corecrl.ErrCacheMiss)
+		}
 		return nil, corecrl.ErrCacheMiss
 	}
 	op.Outcome = "hit"
